@@ -43,6 +43,8 @@ def buffer_set(prog, nbases):
             a = al[pos]
             b.append(a[(k + pos) % len(a)])
         bases.append(bytes(b))
+    # an all-zero payload first: with the 0x80 flips below it yields +0.0 / -0.0 pairs for every Float field
+    bases.insert(0, bytes([ctrl[0]] + [0] * (L - 1)))
     out = []
     seen = set()
 
@@ -53,13 +55,13 @@ def buffer_set(prog, nbases):
     for b in bases:
         add(b)
         for pos in range(L):
-            for x in (0xFF, 0x01):
+            for x in (0xFF, 0x01, 0x80):
                 v = bytearray(b)
                 v[pos] ^= x
                 add(bytes(v))
         for cut in range(0, L):
             add(b[:cut])
-    return out[:220]
+    return out[:260]
 
 
 DRV_MAIN = r'''
